@@ -496,7 +496,7 @@ def run(ctx, tier):
                                                   'the stored angle is not confined to [-pi, pi] / may be NaN: %s' % {k[1]: str(v) for k, v in res.items()}, loc=b.loc(0)))
     if nr < 1:
         r_rng.violations.append(Violation('C12', 'C12.range', 'oxmpl', 'floor', 'SO2State::new not found'))
-    return [r_st, r_nan, r_cnt, r_prop, r_can, r_rng, _sample_width(ctx), _unit_normalise(ctx)]
+    return [r_st, r_nan, r_cnt, r_prop, r_can, r_rng, _sample_width(ctx), _unit_normalise(ctx), _congruent(ctx)]
 
 
 def pred_facts(fn, target_block, pred, want_true):
@@ -1006,7 +1006,22 @@ def _check_count(ctx, b, fn, pi, r_cnt):
                                               'length compared against %s (expected a parameter or constant)' % fmt_terms(otherside)[:80],
                                               loc=fn.loc(gb), ordinal=gi))
     eq_edges = frozenset(g[1] for g in gates)
-    reach_wo = fn.reachable(0, removed=eq_edges)
+    # where the parameter is an Option, the `None` edge of a match on it carries no vector: a path that bypasses the length
+    # test through it uses nothing (`if let Some(b) = &opt { if b.len() != 3 { return Err(..) } }  Inner::new(3, opt)`)
+    none_edges = set()
+    if b.local_ty(pi).startswith('std::option::Option<'):
+        for blk in range(fn.nb):
+            si = fn.switch_info(blk)
+            if si is None or fn.blocks[blk]['cleanup']:
+                continue
+            terms, tmap, other = si
+            if not terms or not all(n[0] == 'discr' and n[1] and all(q[0] == 'param' and q[1] == pi for q in n[1]) for n in terms):
+                continue
+            if '0' in tmap:
+                none_edges.add((blk, tmap['0']))
+            elif set(tmap.keys()) == {'1'}:
+                none_edges.add((blk, other))       # `switch [1: Some, otherwise: None]`
+    reach_wo = fn.reachable(0, removed=frozenset(eq_edges | none_edges))
     max_idx = -1
     n_uses = 0
     for bi, t in b.calls():
@@ -1071,3 +1086,44 @@ def _check_count(ctx, b, fn, pi, r_cnt):
                                                   'constant index %d exceeds the checked length %d' % (max_idx, want), loc=fn.loc(gb)))
     if n_uses == 0:
         r_cnt.violations.append(Violation('C12', 'C12.count', b.path, 'no-use', 'the bounds vector is never used (unrecognised shape)', loc=b.loc(0)))
+
+
+def _congruent(ctx):
+    """C12.congruent - canonicalising an angle keeps the configuration: the value SO2State::new / SO2State::normalise yield
+    is congruent to the given angle modulo 2 pi.  Decided on the normal form of the body (oxa/symval.py; real-number
+    reading): every rem_euclid(x, 2 pi) is congruent to x, constants that are multiples of 2 pi drop.  Undecided (no alarm)
+    where the value is not tracked; a violation needs the difference to be a non-multiple of 2 pi at some evaluation point."""
+    import math
+    r = RuleResult('C12.congruent', 'the canonical angle is congruent to the given one modulo 2 pi')
+    try:
+        from ..symval import Poly, fmt_poly
+        from ..symrules import analyze, opaque, congruent, term_differs
+        M = 2 * math.pi
+        for b in sorted(ctx.lib_bodies(), key=lambda x: x.path):
+            if b.impl_trait is not None or b.kind != 'AssocFn' or b.name not in ('new', 'normalise') or not b.j.get('ret_ty', '').endswith('SO2State'):
+                continue
+            res, _ = analyze(ctx, b)
+            vals = {k[1:]: v for k, v in res.items() if k[0] == 'ret' and len(k) > 1}
+            if b.name == 'new':
+                srcs = [i for i in range(1, b.arg_count + 1) if b.local_ty(i) == 'f64']
+                given = Poly.atom(('leaf', srcs[0], ())) if len(srcs) == 1 else None
+            else:
+                given = None
+            for path, v in sorted(vals.items(), key=repr):
+                g = given if given is not None else Poly.atom(('leaf', 1, path))
+                if opaque(v):
+                    r.inst('%s: undecided - the stored angle is not tracked' % b.path, ok=True, nontrivial=False)
+                    continue
+                c = congruent(v, g, M)
+                if c:
+                    r.inst('%s: %s is congruent to the given angle' % (b.path, fmt_poly(v)[:100]), ok=True, site=b.loc(0))
+                elif term_differs(v, g, mod=M) is True:
+                    r.inst('%s: %s is not congruent to the given angle' % (b.path, fmt_poly(v)[:100]), ok=False, site=b.loc(0))
+                    r.violations.append(Violation('C12', 'C12.congruent', b.path, 'congruent',
+                                                  'the canonical angle %s differs from the given angle by something that is not a multiple of 2 pi: '
+                                                  'canonicalisation changes the configuration' % fmt_poly(v)[:300], loc=b.loc(0)))
+                else:
+                    r.inst('%s: undecided - not reduced to the given angle but congruent at every evaluation point' % b.path, ok=True, nontrivial=False)
+    except Exception as e:      # noqa - normal-form rules never alarm on what they cannot analyse
+        r.inst('normal-form analysis: undecided - internal error %s' % type(e).__name__, ok=True, nontrivial=False)
+    return r
